@@ -174,3 +174,200 @@ theorem C09_embedding_plain {k : ℕ} (vecs : Mat ℝ d k) (a b : Fin d) :
 
 /-! non-vacuity -/
 example : (cov (fun (i : Fin 3) (_ : Fin 1) => ([1, 2, 6] : List Rat).getD i.val 0) 0 0) = 7 := by decide +kernel
+
+/-! ## LFDA between-class scatter: code form = documented pairwise form -/
+
+theorem classSize_eq_sum (cls : Fin n → Nat) (c : Nat) :
+    ((classSize cls c : ℕ) : ℝ) = ∑ i : Fin n, (ind (cls i == c) : ℝ) := by
+  unfold classSize
+  rw [← List.countP_eq_length_filter]
+  have : ∀ l : List (Fin n), ((l.countP fun i => cls i == c : ℕ) : ℝ) = (l.map fun i => (ind (cls i == c) : ℝ)).sum := by
+    intro l
+    induction l with
+    | nil => simp
+    | cons a t ih =>
+      rw [List.countP_cons, List.map_cons, List.sum_cons, ← ih]
+      by_cases h : (cls a == c) = true
+      · simp [h, ind_real]; ring
+      · simp [h, ind_real]
+  rw [this, ← List.sum_toFinset _ (List.nodup_finRange n)]
+  · simp [List.toFinset_finRange]
+  
+/-- total scatter: `Σ_ij (x_i − x_j)_a (x_i − x_j)_b = 2n Σ_i x_ia x_ib − 2 s_a s_b` -/
+theorem total_pairwise (X : Mat ℝ n d) (a b : Fin d) :
+    ∑ i, ∑ j, (X i a - X j a) * (X i b - X j b) =
+      2 * (n : ℝ) * ∑ i, X i a * X i b - 2 * ((∑ i, X i a) * (∑ i, X i b)) := by
+  have h := laplacian_form (fun _ _ => (1 : ℝ)) X a b
+  simp only [one_mul, Finset.sum_const, Finset.card_univ, Fintype.card_fin, nsmul_eq_mul, mul_one] at h
+  rw [h]
+  have h1 : ∑ i : Fin n, (n : ℝ) * X i a * X i b = (n : ℝ) * ∑ i, X i a * X i b := by
+    rw [Finset.mul_sum]; apply Finset.sum_congr rfl; intro i _; ring
+  have h2 : ∑ i, ∑ j, (X i a * X j b + X j a * X i b) = 2 * ((∑ i, X i a) * (∑ i, X i b)) := by
+    simp only [Finset.sum_add_distrib]
+    rw [Finset.sum_mul_sum]
+    have : ∑ i, ∑ j, X j a * X i b = ∑ i, ∑ j, X i a * X j b := by rw [Finset.sum_comm]
+    rw [this]; ring
+  rw [h1, h2]; ring
+
+/-- per-class scatter with indicator weights -/
+theorem class_pairwise (X : Mat ℝ n d) (e : Fin n → ℝ) (a b : Fin d) :
+    ∑ i, ∑ j, (e i * e j) * (X i a - X j a) * (X i b - X j b) =
+      2 * (∑ j, e j) * (∑ i, e i * (X i a * X i b)) - 2 * ((∑ i, e i * X i a) * (∑ i, e i * X i b)) := by
+  have h := laplacian_form (fun i j => e i * e j) X a b
+  rw [h]
+  have h1 : ∑ i, (∑ j, e i * e j) * X i a * X i b = (∑ j, e j) * ∑ i, e i * (X i a * X i b) := by
+    rw [Finset.mul_sum]; apply Finset.sum_congr rfl; intro i _
+    rw [← Finset.mul_sum]; ring
+  have h1' : ∑ j, (∑ i, e i * e j) * X j a * X j b = (∑ j, e j) * ∑ i, e i * (X i a * X i b) := by
+    rw [Finset.mul_sum]; apply Finset.sum_congr rfl; intro j _
+    rw [← Finset.sum_mul]; ring
+  have h2 : ∑ i, ∑ j, e i * e j * (X i a * X j b + X j a * X i b) = 2 * ((∑ i, e i * X i a) * (∑ i, e i * X i b)) := by
+    have e1 : ∑ i, ∑ j, e i * e j * (X i a * X j b) = (∑ i, e i * X i a) * (∑ i, e i * X i b) := by
+      rw [Finset.sum_mul_sum]; apply Finset.sum_congr rfl; intro i _; apply Finset.sum_congr rfl; intro j _; ring
+    have e2 : ∑ i, ∑ j, e i * e j * (X j a * X i b) = (∑ i, e i * X i a) * (∑ i, e i * X i b) := by
+      rw [Finset.sum_comm, Finset.sum_mul_sum]; apply Finset.sum_congr rfl; intro i _; apply Finset.sum_congr rfl; intro j _; ring
+    simp only [mul_add, Finset.sum_add_distrib, e1, e2]; ring
+  rw [h1, h1', h2]; ring
+
+theorem same_class_sum (cls : Fin n → Nat) (C : Nat) (hC : ∀ i, cls i < C) (i j : Fin n) :
+    ∑ c : Fin C, (ind (cls i == c.val) : ℝ) * ind (cls j == c.val) = if cls i = cls j then 1 else 0 := by
+  rw [Finset.sum_eq_single (⟨cls i, hC i⟩ : Fin C)]
+  · simp only [ind_real, beq_self_eq_true, if_true, one_mul]
+    by_cases h : cls i = cls j
+    · simp [h]
+    · have : (cls j == cls i) = false := by simpa using fun e => h e.symm
+      simp [h, this]
+  · intro c _ hne
+    have : (cls i == c.val) = false := by
+      simp only [beq_eq_false_iff_ne, ne_eq]; intro e; apply hne; exact Fin.ext e.symm
+    simp [ind_real, this]
+  · intro h; exact absurd (Finset.mem_univ _) h
+
+theorem class_partition (cls : Fin n → Nat) (C : Nat) (hC : ∀ i, cls i < C) (f : Fin n → ℝ) :
+    ∑ c : Fin C, ∑ i, (ind (cls i == c.val) : ℝ) * f i = ∑ i, f i := by
+  rw [Finset.sum_comm]
+  apply Finset.sum_congr rfl; intro i _
+  rw [← Finset.sum_mul]
+  have : ∑ c : Fin C, (ind (cls i == c.val) : ℝ) = 1 := by
+    rw [Finset.sum_eq_single (⟨cls i, hC i⟩ : Fin C)]
+    · simp [ind_real]
+    · intro c _ hne
+      have : (cls i == c.val) = false := by
+        simp only [beq_eq_false_iff_ne, ne_eq]; intro e; apply hne; exact Fin.ext e.symm
+      simp [ind_real, this]
+    · intro h; exact absurd (Finset.mem_univ _) h
+  rw [this, one_mul]
+
+/-- weighted pairwise sum `Σ_ij W_ij D_ij` and its linearity in `W` -/
+def PS (W D : Fin n → Fin n → ℝ) : ℝ := ∑ i, ∑ j, W i j * D i j
+
+theorem PS_sub (W1 W2 D : Fin n → Fin n → ℝ) : PS (fun i j => W1 i j - W2 i j) D = PS W1 D - PS W2 D := by
+  simp only [PS, sub_mul, Finset.sum_sub_distrib]
+theorem PS_add (W1 W2 D : Fin n → Fin n → ℝ) : PS (fun i j => W1 i j + W2 i j) D = PS W1 D + PS W2 D := by
+  simp only [PS, add_mul, Finset.sum_add_distrib]
+theorem PS_smul (c : ℝ) (W D : Fin n → Fin n → ℝ) : PS (fun i j => c * W i j) D = c * PS W D := by
+  simp only [PS, Finset.mul_sum, mul_assoc]
+theorem PS_sum {C : ℕ} (W : Fin C → Fin n → Fin n → ℝ) (D : Fin n → Fin n → ℝ) :
+    PS (fun i j => ∑ c, W c i j) D = ∑ c, PS (W c) D := by
+  simp only [PS, Finset.sum_mul]
+  calc ∑ i, ∑ j, ∑ c, W c i j * D i j = ∑ i, ∑ c, ∑ j, W c i j * D i j := by
+        apply Finset.sum_congr rfl; intro i _; exact Finset.sum_comm
+    _ = ∑ c, ∑ i, ∑ j, W c i j * D i j := Finset.sum_comm
+
+theorem pairwiseScatter_eq_PS (X : Mat ℝ n d) (W : Mat ℝ n n) (a b : Fin d) :
+    pairwiseScatter X W a b = (1/2) * PS W (fun i j => (X i a - X j a) * (X i b - X j b)) := by
+  simp only [pairwiseScatter, vsum_eq_sum, lit_real, PS]
+  have : ∀ i j, W i j * (X i a - X j a) * (X i b - X j b) = W i j * ((X i a - X j a) * (X i b - X j b)) := by
+    intro i j; ring
+  simp only [this]
+  norm_num
+
+/-- **between-class scatter**: the code's accumulation
+`Σ_c [G_c/n + (1 − n_c/n)·XcᵀXc + s_c s_cᵀ/n] − s sᵀ/n − S_w` equals the documented pairwise definition
+`½ Σ_ij W^b_ij (x_i − x_j)(x_i − x_j)ᵀ` with `W^b_ij = A_ij(1/n − 1/n_c)` inside a class and `1/n` across
+classes -/
+theorem C09_lfda_pairwise_Sb (X : Mat ℝ n d) (cls : Fin n → Nat) (A : Mat ℝ n n) (hA : ∀ i j, A i j = A j i)
+    (C : Nat) (hC : ∀ i, cls i < C) (hn : 0 < n) (a b : Fin d) :
+    lfdaSb X cls A C a b = pairwiseScatter X (lfdaWb cls A) a b := by
+  have hnn : (n : ℝ) ≠ 0 := by exact_mod_cast hn.ne'
+  set D : Fin n → Fin n → ℝ := fun i j => (X i a - X j a) * (X i b - X j b) with hD
+  set e : Fin C → Fin n → ℝ := fun c i => ind (cls i == c.val) with he
+  -- documented weights: W^b = (1/n)·(1 − Σ_c e_c e_c + Σ_c e_c e_c A) − W^w
+  have hWb : ∀ i j, lfdaWb cls A i j =
+      (1 / (n : ℝ)) * ((1 - ∑ c : Fin C, e c i * e c j) + ∑ c : Fin C, e c i * e c j * A i j) - lfdaWw cls A i j := by
+    intro i j
+    rw [← Finset.sum_mul]
+    simp only [he, same_class_sum cls C hC i j]
+    unfold lfdaWb lfdaWw
+    by_cases h : cls i = cls j
+    · have hb : (cls i == cls j) = true := by simpa using h
+      simp only [hb, if_true, if_pos h, ofNat_real]
+      ring
+    · have hb : (cls i == cls j) = false := by simpa using h
+      simp only [hb, if_neg h, ofNat_real, Bool.false_eq_true, if_false]
+      ring
+  -- the four pieces
+  have p1 : PS (fun _ _ => (1:ℝ)) D = 2 * (n : ℝ) * ∑ i, X i a * X i b - 2 * ((∑ i, X i a) * (∑ i, X i b)) := by
+    simp only [PS, one_mul, hD]; exact total_pairwise X a b
+  have p2 : ∀ c : Fin C, PS (fun i j => e c i * e c j) D =
+      2 * (∑ j, e c j) * (∑ i, e c i * (X i a * X i b)) - 2 * ((∑ i, e c i * X i a) * (∑ i, e c i * X i b)) := by
+    intro c
+    have := class_pairwise X (e c) a b
+    simp only [PS, hD]
+    rw [← this]
+    apply Finset.sum_congr rfl; intro i _; apply Finset.sum_congr rfl; intro j _; ring
+  have p3 : ∀ c : Fin C, PS (fun i j => e c i * e c j * A i j) D = 2 * lfdaG X cls A c.val a b := by
+    intro c
+    rw [C09_lfda_G_pairwise X cls A hA c.val a b]
+    simp only [PS, hD, he]
+    rw [← mul_assoc]; norm_num
+    apply Finset.sum_congr rfl; intro i _; apply Finset.sum_congr rfl; intro j _; ring
+  have p4 : (1/2) * PS (lfdaWw cls A) D = lfdaSw X cls A C a b := by
+    rw [C09_lfda_pairwise_Sw X cls A hA C hC a b, pairwiseScatter_eq_PS]
+  -- assemble the pairwise side
+  rw [pairwiseScatter_eq_PS]
+  have hfun : (lfdaWb cls A) = fun i j =>
+      (1 / (n : ℝ)) * ((1 - ∑ c : Fin C, e c i * e c j) + ∑ c : Fin C, e c i * e c j * A i j) - lfdaWw cls A i j := by
+    funext i j; exact hWb i j
+  rw [hfun, PS_sub, PS_smul, PS_add, PS_sub, PS_sum (fun c i j => e c i * e c j) D,
+    PS_sum (fun c i j => e c i * e c j * A i j) D, p1]
+  simp only [p2, p3]
+  rw [mul_sub, p4]
+  -- abstract the four class sums
+  set Nc : Fin C → ℝ := fun c => ∑ j, e c j with hNc
+  set S2 : Fin C → ℝ := fun c => ∑ i, e c i * (X i a * X i b) with hS2d
+  set sa : Fin C → ℝ := fun c => ∑ i, e c i * X i a with hsa
+  set sb : Fin C → ℝ := fun c => ∑ i, e c i * X i b with hsb
+  have hT : ∑ i, X i a * X i b = ∑ c : Fin C, S2 c := (class_partition cls C hC (fun i => X i a * X i b)).symm
+  have hpair : (1/2) * (1 / (n:ℝ) * (2 * (n:ℝ) * ∑ i, X i a * X i b - 2 * ((∑ i, X i a) * ∑ i, X i b)
+        - ∑ c : Fin C, (2 * Nc c * S2 c - 2 * (sa c * sb c)) + ∑ c : Fin C, 2 * lfdaG X cls A c.val a b)) =
+      (∑ c : Fin C, S2 c) - ((∑ i, X i a) * ∑ i, X i b) / n - (∑ c : Fin C, Nc c * S2 c) / n
+        + (∑ c : Fin C, sa c * sb c) / n + (∑ c : Fin C, lfdaG X cls A c.val a b) / n := by
+    rw [hT]
+    have e1 : ∑ c : Fin C, (2 * Nc c * S2 c - 2 * (sa c * sb c)) = 2 * (∑ c : Fin C, Nc c * S2 c) - 2 * ∑ c : Fin C, sa c * sb c := by
+      rw [Finset.sum_sub_distrib, Finset.mul_sum, Finset.mul_sum]
+      congr 1; apply Finset.sum_congr rfl; intro c _; ring
+    have e2 : ∑ c : Fin C, 2 * lfdaG X cls A c.val a b = 2 * ∑ c : Fin C, lfdaG X cls A c.val a b := by
+      rw [Finset.mul_sum]
+    rw [e1, e2]
+    field_simp
+    ring
+  rw [hpair]
+  -- the code side
+  have hN : ∀ c : Fin C, ((classSize cls c.val : ℕ) : ℝ) = Nc c := fun c => classSize_eq_sum cls c.val
+  have hall : ∀ (f : Fin n → ℝ), ∑ i, (ind true : ℝ) * f i = ∑ i, f i := by
+    intro f; simp [ind_real]
+  have hcode : lfdaSb X cls A C a b =
+      (∑ c : Fin C, (lfdaG X cls A c.val a b / n + (1 - Nc c / n) * S2 c + sa c * sb c / n))
+        - ((∑ i, X i a) * ∑ i, X i b) / n - lfdaSw X cls A C a b := by
+    simp only [lfdaSb, sumOuter, vsum_eq_sum, ofNat_real, hN, hall]
+    rfl
+  rw [hcode]
+  have e3 : ∑ c : Fin C, (lfdaG X cls A c.val a b / n + (1 - Nc c / n) * S2 c + sa c * sb c / n) =
+      (∑ c : Fin C, lfdaG X cls A c.val a b) / n + (∑ c : Fin C, S2 c) - (∑ c : Fin C, Nc c * S2 c) / n
+        + (∑ c : Fin C, sa c * sb c) / n := by
+    have : ∀ c : Fin C, (lfdaG X cls A c.val a b / n + (1 - Nc c / n) * S2 c + sa c * sb c / n) =
+        lfdaG X cls A c.val a b / n + S2 c - Nc c * S2 c / n + sa c * sb c / n := by
+      intro c; ring
+    simp only [this, Finset.sum_add_distrib, Finset.sum_sub_distrib, Finset.sum_div]
+  rw [e3]; ring
